@@ -96,6 +96,7 @@ const (
 	sCStranded
 	sCNoFunc
 	sDone
+	sLeaving // 11: leave thread between close(closeCh) and CloseListener
 )
 
 type joinRes struct {
@@ -203,6 +204,7 @@ type world struct {
 	nReq   int
 	closer []func()
 
+	manual   bool  // members' Accept is called by the choreography, not by a loop
 	parked   []int // join threads parked at the after_lookup gate, in arrival order
 	obs      *Obs
 	progress func(tid int)
@@ -395,7 +397,9 @@ func (w *world) finishJoin(tid int, t *thread, r *Req, jr joinRes) {
 	}
 	if jr.ln != nil {
 		t.ln = jr.ln
-		go w.acceptLoop(tid, t)
+		if !w.manual {
+			go w.acceptLoop(tid, t)
+		}
 	}
 }
 
@@ -494,6 +498,9 @@ func (w *world) stepLeave(tid int, t *thread, r *Req) error {
 	j.st, j.val = sLeft, 0
 	t.st = sDone
 	w.took(tid)
+	if w.c.Kind != 1 {
+		w.took(tid) // close(closeCh), then CloseListener
+	}
 	return nil
 }
 
@@ -622,6 +629,8 @@ func (w *world) stepConn(tid int, t *thread, r *Req, o *Obs) error {
 		_ = t.cc.SetReadDeadline(time.Now().Add(1500 * time.Millisecond))
 		b, err := t.rd.ReadByte()
 		if err != nil {
+			// (a leaked connection is closed by the finalizer of its descriptor at some point, so
+			// "closed without a label" and "nothing within the deadline" are the same observation)
 			t.st = sCStranded
 			r.Who = -1
 			if w.liveMemberOn(r.R) {
@@ -741,6 +750,19 @@ func runCase(c *Case, progress func(tid int)) (*Obs, error) {
 	w.obs, w.progress = o, progress
 	verifhook.Install(controller)
 	defer verifhook.Install(nil)
+	switch c.Tag {
+	case "closerace":
+		w.manual = true
+		if err := w.closeRace(o); err != nil {
+			return nil, err
+		}
+		c.Sched = nil
+	case "leavewin":
+		if err := w.leaveWindow(o); err != nil {
+			return nil, err
+		}
+		c.Sched = nil
+	}
 	for _, tid := range c.Sched {
 		if tid < 0 || tid >= len(c.Reqs) {
 			continue
@@ -858,4 +880,198 @@ func runCase(c *Case, progress func(tid int)) (*Obs, error) {
 		f()
 	}
 	return o, nil
+}
+
+// ---- choreographies that need more than the two gates ----
+
+func (w *world) holdGroup(n int) (func(), bool) {
+	switch w.c.Kind {
+	case 0:
+		return w.tcp.VerifC13HoldGroup(gname(n))
+	case 1:
+		return w.httpc.VerifC13HoldGroup(gname(n))
+	}
+	return w.muxc.VerifC13HoldGroup(gname(n))
+}
+
+func (w *world) seqStep(tid int, o *Obs) error {
+	t, r := w.th[tid], &w.c.Reqs[tid]
+	switch r.Op {
+	case "join":
+		if err := w.stepJoin(tid, t, r); err != nil {
+			return err
+		}
+		return w.stepJoin(tid, t, r)
+	case "leave":
+		return w.stepLeave(tid, t, r)
+	case "conn":
+		for k := 0; k < 2; k++ {
+			before := t.st
+			if err := w.stepConn(tid, t, r, o); err != nil {
+				return err
+			}
+			if t.st != before {
+				w.took(tid)
+			}
+		}
+	}
+	return nil
+}
+
+type accRes struct {
+	c   net.Conn
+	err error
+}
+
+// one Accept() call on the listener of join thread tid
+func (w *world) acceptOnce(tid int, d time.Duration) (accRes, bool) {
+	ch := make(chan accRes, 1)
+	go func() {
+		c, err := w.th[tid].ln.Accept()
+		ch <- accRes{c, err}
+	}()
+	select {
+	case r := <-ch:
+		return r, true
+	case <-time.After(d):
+		return accRes{}, false
+	}
+}
+
+// closeRace: requests [join A; join B; conn; leave A], tcp / tcpmux.  A user connection sits at the
+// hand-off (the worker is blocked in the send, nobody is in Accept); member A starts leaving
+// (close(closeCh) done, CloseListener kept waiting through the group lock); A's accept loop runs once
+// (both select cases ready); the leave completes; if the connection is still there B takes it.
+func (w *world) closeRace(o *Obs) error {
+	if w.c.Kind == 1 || len(w.c.Reqs) != 4 {
+		return errors.New("closerace: bad case")
+	}
+	for _, tid := range []int{0, 1} {
+		if err := w.seqStep(tid, o); err != nil {
+			return err
+		}
+		if w.th[tid].st != sMember {
+			return errors.New("closerace: join refused")
+		}
+	}
+	ct, cr := w.th[2], &w.c.Reqs[2]
+	if err := w.stepConn(2, ct, cr, o); err != nil {
+		return err
+	}
+	if ct.st != sHeld {
+		return fmt.Errorf("closerace: connection not at the hand-off (state %d)", ct.st)
+	}
+	w.took(2)
+	close(ct.held.release) // the worker goes on to the (blocking) send
+	time.Sleep(10 * time.Millisecond)
+	release, ok := w.holdGroup(w.c.Reqs[0].Group)
+	if !ok {
+		return errors.New("closerace: group not found")
+	}
+	closed := make(chan struct{})
+	go func() { w.th[0].ln.Close(); close(closed) }()
+	time.Sleep(30 * time.Millisecond)
+	w.th[3].st = sLeaving
+	w.took(3) // close(closeCh)
+	deliver := func(tid int, c net.Conn) {
+		_, _ = c.Write([]byte{byte(tid)})
+		_ = c.Close()
+		w.took(2)
+	}
+	ra, done := w.acceptOnce(0, 2*time.Second)
+	if !done {
+		release()
+		return errors.New("closerace: Accept of the closing member blocked")
+	}
+	delivered := false
+	if ra.c != nil {
+		deliver(0, ra.c)
+		delivered = true
+	} else {
+		w.took(0) // A's loop saw closeCh and returned
+	}
+	release()
+	select {
+	case <-closed:
+	case <-time.After(10 * time.Second):
+		return errStuck
+	}
+	w.th[0].st, w.th[0].val = sLeft, 0
+	w.th[3].st = sDone
+	w.took(3) // CloseListener
+	if !delivered {
+		if rb, done := w.acceptOnce(1, 400*time.Millisecond); done && rb.c != nil {
+			deliver(1, rb.c)
+		}
+	}
+	_ = ct.cc.SetReadDeadline(time.Now().Add(600 * time.Millisecond))
+	b, err := ct.rd.ReadByte()
+	switch {
+	case err == nil:
+		ct.st, ct.val, cr.Who = sCTo, int(b), int(b)
+	default: // closed by frps without a label, or nothing at all; member B was live all the time
+		ct.st, cr.Who = sCStranded, -1
+		o.LostLive = true
+	}
+	ct.cc.Close()
+	return nil
+}
+
+// leaveWindow: requests [join p1; leave p1; join p2; join p3; leave p2; leave p3; join p4].  The last
+// leave (of p1) is kept inside its critical section by holding the group's own lock; the join of p2 is
+// started meanwhile; then the lock is released.  With the locks as they are the join waits for the
+// controller lock until the leave is complete.  Everything else runs sequentially.
+func (w *world) leaveWindow(o *Obs) error {
+	if len(w.c.Reqs) != 7 {
+		return errors.New("leavewin: bad case")
+	}
+	if err := w.seqStep(0, o); err != nil {
+		return err
+	}
+	if w.th[0].st != sMember {
+		return errors.New("leavewin: first join refused")
+	}
+	release, ok := w.holdGroup(w.c.Reqs[0].Group)
+	if !ok {
+		return errors.New("leavewin: group not found")
+	}
+	jr := &w.c.Reqs[0]
+	left := make(chan struct{})
+	go func() {
+		if w.c.Kind == 1 {
+			w.httpc.UnRegister(mname(jr.M), gname(jr.Group), w.routeCfg(jr, 0))
+		} else {
+			w.th[0].ln.Close()
+		}
+		close(left)
+	}()
+	time.Sleep(40 * time.Millisecond)
+	joined := make(chan joinRes, 1)
+	go func() { joined <- w.doJoin(2, &w.c.Reqs[2]) }()
+	time.Sleep(40 * time.Millisecond)
+	release()
+	select {
+	case <-left:
+	case <-time.After(10 * time.Second):
+		return errStuck
+	}
+	w.th[0].st, w.th[0].val = sLeft, 0
+	w.th[1].st = sDone
+	w.took(1)
+	if w.c.Kind != 1 {
+		w.took(1)
+	}
+	select {
+	case r := <-joined:
+		w.finishJoin(2, w.th[2], &w.c.Reqs[2], r)
+		w.took(2)
+	case <-time.After(10 * time.Second):
+		return errStuck
+	}
+	for _, tid := range []int{3, 4, 5, 6} {
+		if err := w.seqStep(tid, o); err != nil {
+			return err
+		}
+	}
+	return nil
 }
